@@ -38,7 +38,8 @@ def canary_c17():
 
     def no_locks(obj, sched):
         for name, val in list(vars(obj).items()):
-            if isinstance(val, T._LOCK_TYPES):
+            # (locks created through the threading proxy are ModelLocks already)
+            if isinstance(val, T._LOCK_TYPES) or isinstance(val, T.ModelLock):
                 setattr(obj, name, contextlib.nullcontext())
         return 0
 
